@@ -442,6 +442,10 @@ class Gen:
         n = r.randint(0, 2)
         params = [self.fresh("a") for _ in range(n)]
         env = {p: (INT, True) for p in params}
+        typed = self.f.get("typed") and r.random() < self.f["typed"]
+        decl = [("int " + p if typed and r.random() < 0.6 else p) for p in params]
+        if typed:
+            self.note("typed-parameter")
         guard = ""
         if n and r.random() < 0.3:
             guard = " : %s %s %s" % (params[0], r.choice(["<", ">", "=="]), self.lit(INT))
@@ -453,7 +457,7 @@ class Gen:
                 self.note("guard-with-side-effect")
         body = self.block(env, 1, False, True)
         body = body[:-2] + "; " + self.expr(env, INT, 2) + " }"
-        s = "def %s(%s)%s %s" % (name, ", ".join(params), guard, body)
+        s = "def %s(%s)%s %s" % (name, ", ".join(decl), guard, body)
         if guard and r.random() < 0.8:
             b2 = self.block(env, 1, False, True)
             s += "; def %s(%s) %s" % (name, ", ".join(params), b2[:-2] + "; " + self.expr(env, INT, 2) + " }")
@@ -461,14 +465,36 @@ class Gen:
         self.note("def")
         return s
 
+    def overload_family(self):
+        """one name, overloads that differ in declared parameter types (and an untyped catch-all), defined in random order, called with each kind of value"""
+        r = self.r
+        name = self.fresh("ov")
+        kinds = r.sample(["int", "string", "bool", "Vector", ""], r.randint(2, 4))
+        defs = []
+        for k in kinds:
+            tag = k or "any"
+            extra = r.random() < 0.3
+            defs.append("def %s(%s%s) { print(\"%s:%s\"); %d }" % (name, (k + " " if k else "") + "x", ", y" if extra else "", name, tag + ("2" if extra else ""), r.randint(0, 9)))
+        calls = []
+        for _ in range(r.randint(2, 5)):
+            a = r.choice(["1", "\"s\"", "true", "[1, 2]", "(1 + 2)", "to_string(3)", "[]", "(1 < 2)"])
+            calls.append("%s(%s%s)" % (name, a, ", 5" if r.random() < 0.25 else ""))
+        self.note("overload-family")
+        return defs, ["try { print(%s) } catch(e) { print(\"no overload\") }" % c for c in calls]
+
     def program(self):
         r = self.r
         parts = []
         for _ in range(r.randint(0, 2)):
             parts.append(self.func())
+        if self.f.get("typed") and r.random() < self.f["typed"]:
+            d, c = self.overload_family()
+            parts += d
+            self.pending_calls = c
         env = {}
         for _ in range(r.randint(2, 6)):
             parts.append(self.stmt(env, 0, False, False))
+        parts += getattr(self, "pending_calls", [])
         t = r.choice([INT, INT, BOOL, STR, VEC])
         parts.append(self.expr(env, t, 1))
         sep = r.choice(["; ", "\n", ";\n"])
